@@ -238,7 +238,11 @@ def _run(chk):
                 labs = [[int(v) for v in o['particle'].values] for o in outs]
                 chk.tally('link_df_iter')
             else:
-                labs = linkgen.run_link_iter(frames, sr_u, memory=c['memory'], link_strategy=c['strategy'], enumerate_t=numbers)
+                bys = chk.rng.random() < 0.5
+                labs = linkgen.run_link_iter(frames, sr_u, memory=c['memory'], link_strategy=c['strategy'], enumerate_t=numbers, bystander=bys)
+                c['bystander'] = bys
+                if bys:
+                    chk.tally('link_iter with another linking job alive')
                 fr2 = [f[:, ::-1][:, ::-1] for f in frames]
                 chk.tally('link_iter')
         except SubnetOversizeException:
@@ -255,7 +259,7 @@ def _run(chk):
         chk.count((entry, c02.jsonable(c2, labs)), sum(len(f) for f in c2['frames']) >= 6)
         if r != 0:
             chk.violation('%s:%s' % (entry, CODES.get(r, r)), '%s(%s, memory=%d): %s' % (entry, c2['strategy'], c2['memory'], CODES.get(r, r)),
-                          dict(kind='movie', entry=entry, code=r, case=dict(c02.jsonable(c2, labs), unit_exp=c2.get('unit_exp', 0)), frame_numbers=numbers))
+                          dict(kind='movie', entry=entry, code=r, case=dict(c02.jsonable(c2, labs), unit_exp=c2.get('unit_exp', 0), bystander=bool(c2.get('bystander'))), frame_numbers=numbers))
     if metas:
         chk.sample(dict(entry=metas[0][0], case=c02.jsonable(metas[0][1], metas[0][2])))
     # coords_from_df itself against its model (Model/CoordsFromDf.v, proved equal to the declarative frame split)
@@ -310,12 +314,16 @@ def _replay(chk, path):
         rows = [[*[float(v) * unit for v in p], t] for t, f in zip(nums, frames) for p in f]
         df = pd.DataFrame(rows, columns=cols + ['frame']); df['_rid'] = np.arange(len(df))
         sr_u = tuple(x * Fraction(2) ** uexp for x in sr) if isinstance(sr, tuple) else sr * Fraction(2) ** uexp
-        out = tp.link(df, linkgen.sr_float(sr_u), pos_columns=cols, memory=c['memory'], link_strategy=c['strategy'])
-        fr2, labs, _ = frames_from_output(out, cols)
+        if r.get('entry') == 'link_iter' and cj.get('bystander'):
+            labs = linkgen.run_link_iter([f * unit for f in frames], sr_u, memory=c['memory'], link_strategy=c['strategy'], enumerate_t=nums, bystander=True)
+            fr2 = [f * unit for f in frames]
+        else:
+            out = tp.link(df, linkgen.sr_float(sr_u), pos_columns=cols, memory=c['memory'], link_strategy=c['strategy'])
+            fr2, labs, _ = frames_from_output(out, cols)
         c['frames'] = [np.asarray(f, dtype=float) / unit for f in fr2]
         res = common.coq_eval_lists(chk.work, IMPORTS, FUNC, [c02.case_term(c, labs)])
         chk.count(('replay', cj), True)
-        print('replay (through tp.link): labels', labs, 'monitor code', res[0], CODES.get(res[0]))
+        print('replay (through %s): labels' % ('link_iter with a bystander job' if (r.get('entry') == 'link_iter' and cj.get('bystander')) else 'tp.link'), 'labels', labs, 'monitor code', res[0], CODES.get(res[0]))
         if res[0] != 0:
             chk.violation('link:%s' % CODES.get(res[0]), CODES.get(res[0]), dict(kind='movie', code=res[0], case=c02.jsonable(c, labs)))
     else:
